@@ -31,6 +31,21 @@ TABLE = {
         (["-", "-"], ["C12"], "RMW required: exactly one producer claims a position (ownership itself comes from the stamp)"),
     (Q + "Queue::close", "enqueue_pos", "fetch_or", 0):
         (["-"], ["C12"], "RMW required: sets the closed flag without losing concurrent position updates"),
+    # ---- reply slot of driver-side queries (util/slot.rs) ("SLOT" = slotproto rules, carried by C14 and C19) ----------
+    ("util::slot::SlotWriter::write", "state", "fetch_or", 0):
+        (["Release"], ["SLOT"], "publishes the written value to try_read / the reader's Drop"),
+    ("util::slot::SlotWriter::write", "", "fence", 0):
+        (["Acquire"], ["SLOT"], "the reader's accesses have completed before the writer frees the cell"),
+    ("<util::slot::SlotWriter as std::ops::Drop>::drop", "state", "load", 0):
+        (["Acquire"], ["SLOT"], "if CLOSED is seen, the reader's accesses have completed before the cell is freed"),
+    ("<util::slot::SlotWriter as std::ops::Drop>::drop", "state", "fetch_or", 0):
+        (["AcqRel"], ["SLOT"], "hand-over in both directions: frees after the reader / lets the reader free after us"),
+    ("util::slot::SlotReader::try_read", "state", "load", 0):
+        (["Acquire"], ["SLOT"], "the value written before POPULATED was published is visible"),
+    ("<util::slot::SlotReader as std::ops::Drop>::drop", "state", "load", 0):
+        (["Acquire"], ["SLOT"], "if CLOSED is seen, the writer's value / accesses are visible before drop and free"),
+    ("<util::slot::SlotReader as std::ops::Drop>::drop", "state", "fetch_or", 0):
+        (["AcqRel"], ["SLOT"], "hand-over in both directions"),
     # ---- pool manager (C04, C06) ---------------------------------------------------------------------------
     (PM + "activate_worker", "active_workers", "fetch_or", 0):
         (["Release"], ["C04"], "dummy RMW: makes injected tasks visible to the last active worker (release sequence)"),
